@@ -73,6 +73,26 @@ def mk_pdf(m, rng, R, D, diag=False, give=0, scale=1.0):
     return Obj(m.pdf(R, D, S, mu, diag=diag, **kw), Sigma=S, mu=mu, Lambda=L, nu=nu, ln_beta=lb, R=R, D=D)
 
 
+def mutate_pdf(m, rng, p, diag=False):
+    """history: fill the lazily computed caches of the density, use it once, then replace some components IN PLACE with
+    update(); returns nothing, the Obj's reference parameters follow.  Whatever is computed from the object afterwards must
+    see the new parameters only."""
+    m.query("log_integral", p.reg); m.integrate(p.reg, "x")
+    R, D = p.R, p.D
+    K = int(rng.integers(1, R + 1)); uidx = rng.permutation(R)[:K]
+    d = mk_pdf(m, rng, K, D, diag=diag, scale=2.0)
+    m.update(p.reg, uidx, d.reg)
+    for f in ("Sigma", "mu", "Lambda", "nu", "ln_beta"):
+        a = getattr(p, f).copy(); a[uidx] = getattr(d, f); setattr(p, f, a)
+
+
+def mutate_cond(m, rng, c):
+    """history: replace the noise covariance of a conditional in place (update_Sigma); reference parameters follow"""
+    S2 = gen.pd_batch(rng, c.R, c.Dy, diag=(c.cls in ("diag", "identitydiag")))
+    m.update_sigma(c.reg, S2)
+    c.Sigma = S2; c.Lambda = np.linalg.inv(S2); c.ln_det_Sigma = np.linalg.slogdet(S2)[1]
+
+
 def mk_factor(m, rng, kind, R, D):
     if kind == "general":
         L = gen.psd_batch(rng, R, D); nu = gen.vec_batch(rng, R, D); lb = rng.standard_normal(R)
